@@ -3,6 +3,7 @@ import WmModel.GcConf
 import WmModel.GcMon
 import WmModel.GcTopicConf
 import WmModel.GcRegConf
+import WmModel.GcProdConf
 import WmModel.GcDecConf
 open Wm
 
@@ -28,6 +29,9 @@ def handle (line : String) : String :=
     match toks.find? (fun t => t.startsWith "stuck:") with
     | some t => "violated:" ++ (t.drop 6).toString
     | none => "ok"
+  -- merged registry + subscription streams: conformance with the composition M_prod
+  | "M" :: "prod" :: toks => GcProdConf.checkProd toks
+  | "P" :: "prod" :: _ => "ok"
   | "M" :: "top" :: _ => "ok"
   | "P" :: "top" :: toks => GcMon.runMon GcMon.monC07 toks
   | _ => "bad-op"
